@@ -196,6 +196,8 @@ impl VisitedMap {
     { unimplemented!() }
     #[verifier::external_body]
     pub fn insert(&mut self, k: usize, v: ValueRepr) ensures final(self)@ == old(self)@.insert(k as int, v) { unimplemented!() }
+    #[verifier::external_body]
+    pub fn clear(&mut self) ensures final(self)@ == Map::<int, ValueRepr>::empty() { unimplemented!() }
 }
 impl ValueRepr {
     #[verifier::external_body]
@@ -213,6 +215,11 @@ pub fn alloc_cb<T, R>(gc: &mut Gc, value: &GcPtr<T>) -> (r: Result<(ValueRepr, R
     ensures r is Ok ==> fresh_value(r->Ok_0.0), gc_gen(*final(gc)) == gc_gen(*old(gc))
 { unimplemented!() }
 
+// nothing that was remembered is forgotten or changed
+pub open spec fn visited_kept(old_m: Map<int, ValueRepr>, new_m: Map<int, ValueRepr>) -> bool {
+    forall|k: int| #[trigger] old_m.contains_key(k) ==> new_m.contains_key(k) && new_m[k] == old_m[k]
+}
+
 pub struct Cloner<'gc> { pub visited: VisitedMap, pub thread: &'gc ThreadRef, pub gc: &'gc mut Gc, pub receiver_generation: Generation }
 
 impl<'gc> Cloner<'gc> {
@@ -220,25 +227,30 @@ impl<'gc> Cloner<'gc> {
     // receiving heap; they do not change the share-or-copy policy (receiver_generation).
     #[verifier::external_body]
     pub fn deep_clone_str(&mut self, data: &GcStr) -> (r: Result<ValueRepr, Error>)
-        ensures r is Ok ==> (r->Ok_0 is String && fresh_value(r->Ok_0)), final(self).receiver_generation == old(self).receiver_generation
+        ensures r is Ok ==> (r->Ok_0 is String && fresh_value(r->Ok_0)), final(self).receiver_generation == old(self).receiver_generation,
+                visited_kept(old(self).visited@, final(self).visited@)
     { unimplemented!() }
     #[verifier::external_body]
     pub fn deep_clone_data(&mut self, data: &GcPtr<DataStruct>) -> (r: Result<GcPtr<DataStruct>, Error>)
-        ensures r is Ok ==> fresh(r->Ok_0), final(self).receiver_generation == old(self).receiver_generation
+        ensures r is Ok ==> fresh(r->Ok_0), final(self).receiver_generation == old(self).receiver_generation,
+                visited_kept(old(self).visited@, final(self).visited@)
     { unimplemented!() }
     // deep_clone_array is extracted and verified (see spec.toml), no longer assumed
     #[verifier::external_body]
     pub fn deep_clone_closure(&mut self, data: &GcPtr<ClosureData>) -> (r: Result<GcPtr<ClosureData>, Error>)
-        ensures r is Ok ==> fresh(r->Ok_0), final(self).receiver_generation == old(self).receiver_generation
+        ensures r is Ok ==> fresh(r->Ok_0), final(self).receiver_generation == old(self).receiver_generation,
+                visited_kept(old(self).visited@, final(self).visited@)
     { unimplemented!() }
     #[verifier::external_body]
     pub fn deep_clone_app(&mut self, data: &GcPtr<PartialApplicationData>) -> (r: Result<GcPtr<PartialApplicationData>, Error>)
-        ensures r is Ok ==> fresh(r->Ok_0), final(self).receiver_generation == old(self).receiver_generation
+        ensures r is Ok ==> fresh(r->Ok_0), final(self).receiver_generation == old(self).receiver_generation,
+                visited_kept(old(self).visited@, final(self).visited@)
     { unimplemented!() }
     // `userdata.deep_clone(self).map(|v| v.unrooted())` (trait object call, ASSUMED fresh)
     #[verifier::external_body]
     pub fn userdata_deep_clone(&mut self, data: &GcPtr<UserdataBox>) -> (r: Result<GcPtr<UserdataBox>, Error>)
-        ensures r is Ok ==> fresh(r->Ok_0), final(self).receiver_generation == old(self).receiver_generation
+        ensures r is Ok ==> fresh(r->Ok_0), final(self).receiver_generation == old(self).receiver_generation,
+                visited_kept(old(self).visited@, final(self).visited@)
     { unimplemented!() }
 }
 
@@ -288,7 +300,7 @@ impl<'gc> Cloner<'gc> {
     #[verifier::external_body]
     pub fn deep_clone_ptr_array(&mut self, array: &GcPtr<ValueArray>) -> (r: Result<Result<ValueRepr, GcPtr<ValueArray>>, Error>)
         ensures
-            final(self).receiver_generation == old(self).receiver_generation,
+            final(self).receiver_generation == old(self).receiver_generation, visited_kept(old(self).visited@, final(self).visited@),
             // (the visited map only ever stores ValueRepr::Array under an array's key: the closure passed to deep_clone_ptr above)
             r is Ok && r->Ok_0 is Ok ==> r->Ok_0->Ok_0 is Array && fresh(r->Ok_0->Ok_0->Array_0) && elems_ok(r->Ok_0->Ok_0->Array_0),
             r is Ok && r->Ok_0 is Err ==> fresh(r->Ok_0->Err_0) && shallow_copy_of(r->Ok_0->Err_0, *array) && arr_repr(r->Ok_0->Err_0) == arr_repr(*array),
@@ -299,22 +311,26 @@ impl<'gc> Cloner<'gc> {
     #[verifier::external_body]
     pub fn deep_clone_elems_with_deep_clone_array(&mut self, new_array: &mut GcPtr<ValueArray>) -> (r: Result<(), Error>)
         ensures r is Ok ==> elems_ok(*final(new_array)), fresh(*final(new_array)) == fresh(*old(new_array)),
-                final(self).receiver_generation == old(self).receiver_generation
+                final(self).receiver_generation == old(self).receiver_generation,
+                visited_kept(old(self).visited@, final(self).visited@)
     { unimplemented!() }
     #[verifier::external_body]
     pub fn deep_clone_elems_with_deep_clone_inner(&mut self, new_array: &mut GcPtr<ValueArray>) -> (r: Result<(), Error>)
         ensures r is Ok ==> elems_ok(*final(new_array)), fresh(*final(new_array)) == fresh(*old(new_array)),
-                final(self).receiver_generation == old(self).receiver_generation
+                final(self).receiver_generation == old(self).receiver_generation,
+                visited_kept(old(self).visited@, final(self).visited@)
     { unimplemented!() }
     #[verifier::external_body]
     pub fn deep_clone_elems_with_deep_clone_userdata(&mut self, new_array: &mut GcPtr<ValueArray>) -> (r: Result<(), Error>)
         ensures r is Ok ==> elems_ok(*final(new_array)), fresh(*final(new_array)) == fresh(*old(new_array)),
-                final(self).receiver_generation == old(self).receiver_generation
+                final(self).receiver_generation == old(self).receiver_generation,
+                visited_kept(old(self).visited@, final(self).visited@)
     { unimplemented!() }
     #[verifier::external_body]
     pub fn deep_clone_elems_with_deep_clone_gc_str(&mut self, new_array: &mut GcPtr<ValueArray>) -> (r: Result<(), Error>)
         ensures r is Ok ==> elems_ok(*final(new_array)), fresh(*final(new_array)) == fresh(*old(new_array)),
-                final(self).receiver_generation == old(self).receiver_generation
+                final(self).receiver_generation == old(self).receiver_generation,
+                visited_kept(old(self).visited@, final(self).visited@)
     { unimplemented!() }
 }
 
